@@ -261,3 +261,107 @@ def scalar_order(h):
             if got != exp:
                 return {"reproduced": True, "call": "%r %s %r" % (a, n, b), "observed": got, "expected": exp}
     return {"reproduced": False}
+
+
+# ------------------------------------------------------------------------------------------------
+# arithmetic (C03 / C04 / C05 / C09): independent factor-and-exponent oracle over scale-only units
+
+
+def _k(db, unit):
+    info = db.unit_to_unit_info[unit]
+    return info.tobase(1.0) - info.tobase(0.0)
+
+
+def magnitude(s):
+    """base-unit magnitude and dimension {quantity type: exponent} of a Scalar, from its composing map"""
+    q = s.GetQuantity()
+    db = q.GetUnitDatabase()
+    mag = s.GetValue()
+    dim = {}
+    for cat, (unit, exp) in q.GetCategoryToUnitAndExps().items():
+        mag *= _k(db, unit) ** exp
+        qt = db.GetCategoryQuantityType(cat)
+        dim[qt] = dim.get(qt, 0) + exp
+    return mag, {k: v for k, v in dim.items() if v != 0}
+
+
+def arith_pool():
+    from barril.units import Scalar
+
+    m, cm, km = Scalar(2.0, "m"), Scalar(300.0, "cm"), Scalar(0.5, "km")
+    s, mn = Scalar(4.0, "s"), Scalar(0.25, "min")
+    d = Scalar(150.0, "cm", "depth")
+    return {
+        "simple": [m, cm, km, s, mn, d],
+        "derived1": [m * m, cm * cm, cm * cm * cm, Scalar(1.0, "m") / (s * s) * Scalar(1.0, "s") * Scalar(1.0, "s") / m / m, km * km],
+        "derived2": [m / s, cm / mn, km * s, cm * d, m * mn],
+        "empty": [Scalar.CreateEmptyScalar(3.0)],
+    }
+
+
+@probe("arith")
+def arith(h):
+    import operator
+
+    ops = {"add": operator.add, "sub": operator.sub, "mul": operator.mul, "truediv": operator.truediv, "floordiv": operator.floordiv}
+    names = {"Sum": "add", "Subtract": "sub", "Multiply": "mul", "Divide": "truediv", "FloorDivide": "floordiv"}
+    var = h.get("variant") or []
+    opn = None
+    kinds = []
+    for x in var:
+        if x in ops:
+            opn = x
+        elif x in ("simple", "derived1", "derived2", "empty", "float", "int", "npfloat"):
+            kinds.append(x)
+    todo = [opn] if opn else ["add", "sub", "mul", "truediv"]
+    if h.get("function") in names:
+        todo = [names[h["function"]]]
+    pool = arith_pool()
+    nums = {"float": [2.5], "int": [3], "npfloat": []}
+    try:
+        import numpy
+
+        nums["npfloat"] = [numpy.float64(2.5)]
+    except Exception:
+        pass
+    ka = kinds[0] if kinds else None
+    kb = kinds[1] if len(kinds) > 1 else None
+    As = (pool.get(ka) or nums.get(ka)) if ka else sum(pool.values(), [])
+    Bs = (pool.get(kb) or nums.get(kb)) if kb else sum(pool.values(), [])
+    from barril.units import Scalar
+
+    for o in todo:
+        for a in As:
+            for b in Bs:
+                if not isinstance(a, Scalar) and not isinstance(b, Scalar):
+                    continue
+                ma, da = magnitude(a) if isinstance(a, Scalar) else (float(a), {})
+                mb, db_ = magnitude(b) if isinstance(b, Scalar) else (float(b), {})
+                call = "%r %s %r" % (a, o, b)
+                try:
+                    r = ops[o](a, b)
+                except Exception as e:
+                    compatible = o in ("mul", "truediv", "floordiv") or da == db_ or not da or not db_
+                    if compatible and not isinstance(e, ZeroDivisionError):
+                        return {"reproduced": True, "call": call, "observed": repr(e), "expected": "a result"}
+                    continue
+                if not isinstance(r, Scalar):
+                    return {"reproduced": True, "call": call, "observed": repr(r), "expected": "a Scalar"}
+                mr, dr = magnitude(r)
+                if o in ("add", "sub"):
+                    if da != db_ and da and db_:
+                        return {"reproduced": True, "call": call, "observed": repr(r), "expected": "InvalidOperationError"}
+                    exp_m = ops[o](ma, mb)
+                    exp_d = da or db_
+                elif o == "mul":
+                    exp_m = ma * mb
+                    exp_d = {k: da.get(k, 0) + db_.get(k, 0) for k in set(da) | set(db_)}
+                else:
+                    exp_m = ma / mb
+                    exp_d = {k: da.get(k, 0) - db_.get(k, 0) for k in set(da) | set(db_)}
+                exp_d = {k: v for k, v in exp_d.items() if v != 0}
+                if o == "floordiv":
+                    continue
+                if dr != exp_d or not close(mr, exp_m, 1e-9):
+                    return {"reproduced": True, "call": call, "observed": [repr(r), mr, dr], "expected": [exp_m, exp_d]}
+    return {"reproduced": False}
